@@ -78,8 +78,13 @@ func newM3EnvPorts(nSinks int, opts m3.Options, inner func(int), lowPorts bool) 
 	var err error
 	if m3ViaConfiguration && opts.Protocol == m3.Compact && opts.HistogramBucketIDName == "" && opts.HistogramBucketName == "" {
 		// the same options expressed as the YAML-facing Configuration
-		rep, err = m3.Configuration{HostPorts: opts.HostPorts, Service: opts.Service, Env: opts.Env, CommonTags: opts.CommonTags, Queue: opts.MaxQueueSize,
-			PacketSize: opts.MaxPacketSizeBytes, IncludeHost: opts.IncludeHost, HistogramBucketTagPrecision: opts.HistogramBucketTagPrecision, InternalTags: opts.InternalTags}.NewReporter()
+		cfg := m3.Configuration{HostPorts: opts.HostPorts, Service: opts.Service, Env: opts.Env, CommonTags: opts.CommonTags, Queue: opts.MaxQueueSize,
+			PacketSize: opts.MaxPacketSizeBytes, IncludeHost: opts.IncludeHost, HistogramBucketTagPrecision: opts.HistogramBucketTagPrecision, InternalTags: opts.InternalTags}
+		if len(opts.HostPorts) == 1 {
+			// the single-destination spelling of the configuration
+			cfg.HostPort, cfg.HostPorts = opts.HostPorts[0], nil
+		}
+		rep, err = cfg.NewReporter()
 	} else {
 		rep, err = m3.NewReporter(opts)
 	}
